@@ -24,6 +24,7 @@ EXPLANATION = (
 )
 EXPLANATION += ' R03.16: identifier characters.  R03.17: the loop-carried test sees reads that precede the region in the enclosing loop; loop_depth is lowered as it was raised.'
 EXPLANATION += ' R03.15: a function that remembers its answer under a key reads, in the computation of the remembered value, nothing of its parameters that the key does not contain (followed into the helpers it calls).'
+EXPLANATION += " R03.18: in the anchored modules and the shared text utilities no source text is cut with str.splitlines() (it breaks at form feed, \x1c-\x1e, \x85, U+2028/9; rope's and the ast's line numbers count \n only)."
 ASSUMPTIONS = [
     "the break/continue finder lacking AsyncFor and the missing scope cuts of the return counter only cause over-refusal, which the property allows: recorded as exceptions, not armed (R03.5 arms only the under-refusal direction: else clauses)",
     "IfExp/BoolOp conditional evaluation matters only with a walrus inside: not armed",
@@ -485,6 +486,9 @@ def check(ctx, res) -> None:
     identifier_char_rule(ctx, res, "R03.16", ("rope.refactor.extract", "rope.refactor.similarfinder", "rope.refactor.wildcards"))
     _loop_carried_reads_rule(ctx, res)
     memo_key_rule(ctx, res, "R03.15", ("rope.refactor.similarfinder", "rope.refactor.wildcards", "rope.refactor.extract"))
+    from .common import line_model_rule as _lm
+
+    _lm(ctx, res, "R03.18", ('rope.refactor.extract', 'rope.refactor.similarfinder', 'rope.refactor.suites', 'rope.refactor.sourceutils', 'rope.refactor.usefunction'))
 
 
 def _loop_carried_reads_rule(ctx, res) -> None:
